@@ -248,6 +248,35 @@ def alias_child(job):
     import datetime
     out = []
     for name, depth in job:
+        if name == "SameName":
+            # two classes of ONE qualified name from different modules in one graph: docs.Node wraps the recursive trees.Node
+            tr, dc = sys.modules.get("vm_c07_trees"), sys.modules.get("vm_c07_docs")
+            if tr is None:
+                tr, dc = types.ModuleType("vm_c07_trees"), types.ModuleType("vm_c07_docs")
+                sys.modules["vm_c07_trees"], sys.modules["vm_c07_docs"] = tr, dc
+                exec("from __future__ import annotations\nimport dataclasses, typing, datetime\n@dataclasses.dataclass\nclass Node:\n"
+                     "    day: datetime.date\n    child: typing.Optional[Node] = None\n    kids: typing.List[Node] = dataclasses.field(default_factory=list)\n"
+                     "    named: typing.Dict[str, Node] = dataclasses.field(default_factory=dict)\n", tr.__dict__)
+                exec("from __future__ import annotations\nimport dataclasses, typing\nimport vm_c07_trees\n@dataclasses.dataclass\nclass Node:\n"
+                     "    title: str\n    root: vm_c07_trees.Node\n    others: typing.List[vm_c07_trees.Node] = dataclasses.field(default_factory=list)\n", dc.__dict__)
+            day, iso = datetime.date(2020, 1, 2), "2020-01-02"
+            leaf = lambda: ({"day": iso, "child": None, "kids": [], "named": {}})
+            val, wire = tr.Node(day), leaf()
+            for i in range(depth):
+                val = tr.Node(day, val, [tr.Node(day)], {"k": tr.Node(day)})
+                wire = {"day": iso, "child": wire, "kids": [leaf()], "named": {"k": leaf()}}
+            try:
+                ok, got = True, ""
+                for t_, v_, w_ in ((dc.Node, dc.Node("doc", val, [val]), {"title": "doc", "root": wire, "others": [wire]}),
+                                   (typing_list(dc.Node), [dc.Node("d", val)], [{"title": "d", "root": wire, "others": []}])):
+                    m_ = typelib.marshal(v_, t=t_)
+                    back = typelib.unmarshal(t_, w_)
+                    if m_ != w_ or back != v_:
+                        ok, got = False, repr(m_)[:120] + " / " + repr(back)[:80]
+                out.append({"alias": name, "depth": depth, "ok": ok, "got": got})
+            except Exception as e:  # noqa: BLE001
+                out.append({"alias": name, "depth": depth, "ok": False, "got": f"{type(e).__name__}: {e}"[:160]})
+            continue
         if name == "TypingMod":
             # recursive classes declared in a project module that is CALLED typing (acme.typing): classes like any other
             pkg, sub = sys.modules.get("vm_c07_acme"), sys.modules.get("vm_c07_acme.typing")
@@ -442,7 +471,7 @@ def explore(ctx):
                 res.count("oracle:roundtrip-every-level")
     # recursive aliases
     core.import_typelib()
-    ajobs = [[(name, d) for d in depths] for name in ("A", "L", "O", "TD", "DD", "ND", "Rows", "Item", "Tree", "TypingMod", "PL", "PT", "PD", "PS")]
+    ajobs = [[(name, d) for d in depths] for name in ("A", "L", "O", "TD", "DD", "ND", "Rows", "Item", "Tree", "TypingMod", "PL", "PT", "PD", "PS", "SameName")]
     for out in iso.map_isolated(alias_child, ajobs, timeout=120):
         if isinstance(out, dict) and "crash" in out:
             res.failures.append({"what": f"recursive alias: {out['crash']}", "input": {"alias": "?"}})
